@@ -85,6 +85,8 @@ func scnRestartFollower(name string, k kfn, first Item) *Scenario {
 	s = s.faultFree()
 	s.SplitApply = true
 	s.RandMenu = nil
+	// deviations only around the restart (the rest of the run is covered by the other scenarios)
+	s.DevFrom, s.DevUntil = tDel, tDel+90*ms
 	return s
 }
 
@@ -148,7 +150,7 @@ func c02Plan(tier string) []PlanItem {
 		items = append(items, PlanItem{scnRestart("restart/"+stopName(sv)+"-K1", K1, sv), d})
 	}
 	items = append(items,
-		PlanItem{scnRestartFollower("restart-follower/stop-K1", K1, Item{Do: "stop"}), d},
+		PlanItem{scnRestartFollower("restart-follower/stop-K1", K1, Item{Do: "stop"}), d + 1},
 		PlanItem{scnRestart2("restart2/stop-then-stopdel-K1", K1, Item{Do: "stop"}), d},
 		PlanItem{scnRestart2("restart2/stopctx-then-stopdel-K1", K1, Item{Do: "stopctx"}), d},
 		PlanItem{dropAll(scnRestart2("restart2/stop-then-stopdel-K1-dropall", K1, Item{Do: "stop"})), d})
